@@ -19,11 +19,18 @@ struct Case {
     domain: bool,
     early_data: bool,
     blackhole: bool,
+    /// the destination is a name that does not resolve
+    unresolvable: bool,
 }
 
-fn dest_bytes(domain: bool, port: u16) -> Vec<u8> {
+fn dest_bytes(domain: bool, port: u16, unresolvable: bool) -> Vec<u8> {
     let mut v = vec![];
-    if domain {
+    if unresolvable {
+        let n = b"no-such-host.invalid";
+        v.push(3);
+        v.push(n.len() as u8);
+        v.extend_from_slice(n);
+    } else if domain {
         v.push(3);
         v.push(9);
         v.extend_from_slice(b"localhost");
@@ -111,7 +118,7 @@ async fn run_case(c: Case) -> Vec<(String, String)> {
     };
     peer.send(SETTINGS, 0, settings.as_bytes());
     peer.send(SYN, 7, b"");
-    peer.send(PSH, 7, &dest_bytes(c.domain, port));
+    peer.send(PSH, 7, &dest_bytes(c.domain, port, c.unresolvable));
     if c.early_data {
         peer.send(PSH, 7, b"early-bytes");
     }
@@ -178,7 +185,7 @@ async fn run_case(c: Case) -> Vec<(String, String)> {
             if c.accepting && !c.blackhole && !empty {
                 viols.push(("C10:server-refuses-reachable-target".into(), format!("{c:?}: SYNACK carries an error for an accepting target: {:?}", String::from_utf8_lossy(&synacks[0]))));
             }
-            if (!c.accepting || c.blackhole) && empty {
+            if (!c.accepting || c.blackhole || c.unresolvable) && empty {
                 viols.push(("C10:server-success-without-connection".into(), format!("{c:?}: empty (success) SYNACK although the target cannot be connected")));
             }
         }
@@ -214,13 +221,16 @@ pub fn server_half(rep: &mut Report, tier: Tier) {
         for accepting in [true, false] {
             for domain in [false, true] {
                 for early_data in [false, true] {
-                    cases.push(Case { version, accepting, domain, early_data, blackhole: false });
+                    cases.push(Case { version, accepting, domain, early_data, blackhole: false, unresolvable: false });
                 }
             }
         }
     }
+    for version in [Some("2"), Some("1")] {
+        cases.push(Case { version, accepting: false, domain: true, early_data: false, blackhole: false, unresolvable: true });
+    }
     if tier.is_thorough() {
-        cases.push(Case { version: Some("2"), accepting: true, domain: false, early_data: false, blackhole: true });
+        cases.push(Case { version: Some("2"), accepting: true, domain: false, early_data: false, blackhole: true, unresolvable: false });
     }
     let results = block_on(async {
         let mut hs = vec![];
